@@ -213,6 +213,13 @@ func dropZZ(tree []string) []string {
 // oracleDiff evaluates the property directly: the implementation against the evaluator's
 // judgement of the script ("" = holds or not judged).
 func oracleDiff(c *Case, o *Obs, ex *Expect) string {
+	// Params.Cmds is only consulted for names outside the standard set: a custom command
+	// registered under the name of a built-in (or of a command registered by Main) is never run
+	for _, p := range o.Probes {
+		if strings.HasPrefix(p, "SHADOW-REACHED:") {
+			return "custom-command-replaced-" + strings.TrimPrefix(p, "SHADOW-REACHED:")
+		}
+	}
 	if ex == nil || !ex.Known {
 		return ""
 	}
@@ -295,7 +302,7 @@ func (rn *runner) reportOracle(oc *outcome, name string) {
 	if shrinkBudget["o"]++; shrinkBudget["o"] <= 4 {
 		c = shrinkCase(oc.c, func(t *Case) bool {
 			ex := evaluate(t)
-			if !ex.Known {
+			if !ex.Known && !t.Shadow {
 				return false
 			}
 			r := rn.run(t)
